@@ -11,6 +11,7 @@
 -/
 import KiraModel.Proofs.EffectsBProbe
 import KiraModel.Proofs.EffectsBReverb
+import KiraModel.Proofs.EffectsBLines
 
 namespace K
 open Delay LineFx
@@ -212,5 +213,64 @@ theorem C13_reverb_low_rate_faults (r : Reverb ℝ) (x : Frame ℝ) (dt : ℝ) (
     · left
       simp [AllPass.WF, AllPass.new, hadj]
   simp only [Reverb.process, Reverb.init, Reverb.frames, ReverbLines.frame_err _ hbad]
+
+/-! ## Boundedness of the lines (BIBO) -/
+
+/-- **the comb line is BIBO-stable for |feedback| < 1.**  `Comb.run` iterates the model's
+    `CombFilter::process`.  If every slot and the low-pass store are within `B`, every input within `X`,
+    `0 ≤ damping ≤ 1` and `X + |feedback|·B ≤ B` (i.e. `B ≥ X / (1 − |feedback|)`, the geometric-series
+    bound), then for input sequences of *any* length the line never faults, every output is within `B`
+    and the state stays within `B`. -/
+theorem C13_comb_bounded (c : Comb ℝ) (hw : c.WF) (fb dp X B : ℝ) (hdp0 : 0 ≤ dp) (hdp1 : dp ≤ 1)
+    (hB0 : 0 ≤ B) (hB : X + |fb| * B ≤ B) (hs : |c.store| ≤ B) (hbuf : ∀ e ∈ c.buffer.toList, |e| ≤ B)
+    (xs : List ℝ) (hx : ∀ x ∈ xs, |x| ≤ X) :
+    ∃ c' ys, Comb.run fb dp c xs = .ok (c', ys) ∧ (∀ y ∈ ys, |y| ≤ B) ∧ |c'.store| ≤ B
+      ∧ ∀ e ∈ c'.buffer.toList, |e| ≤ B := by
+  obtain ⟨c', hrun, _, hst⟩ := Comb.run_fifo fb dp xs c hw
+  obtain ⟨a, b, d⟩ := Comb.fifoRun_bounded fb dp X B hdp0 hdp1 hB0 hB xs (c.fifo, c.store) hx hs
+    (fun e he => hbuf e ((Comb.mem_fifo c e).mp he))
+  refine ⟨c', _, hrun, d, ?_, ?_⟩
+  · have : c'.store = (Comb.fifoRun fb dp (c.fifo, c.store) xs).1.2 := by rw [← hst]
+    rw [this]; exact a
+  · intro e he
+    have : c'.fifo = (Comb.fifoRun fb dp (c.fifo, c.store) xs).1.1 := by rw [← hst]
+    exact b e (by rw [← this]; exact (Comb.mem_fifo c' e).mpr he)
+
+/-- from a fresh comb line (`CombFilter::new(n)`, `n ≥ 1`) with `|feedback| < 1`: inputs within `X` give
+    outputs within `X / (1 − |feedback|)`, for ever -/
+theorem C13_comb_bounded_fresh (n : ℕ) (hn : 1 ≤ n) (fb dp X : ℝ) (hfb : |fb| < 1) (hdp0 : 0 ≤ dp)
+    (hdp1 : dp ≤ 1) (hX : 0 ≤ X) (xs : List ℝ) (hx : ∀ x ∈ xs, |x| ≤ X) :
+    ∃ c' ys, Comb.run fb dp (Comb.new n) xs = .ok (c', ys) ∧ ∀ y ∈ ys, |y| ≤ X / (1 - |fb|) := by
+  have hpos : 0 < 1 - |fb| := by linarith
+  have hB0 : 0 ≤ X / (1 - |fb|) := div_nonneg hX hpos.le
+  have hB : X + |fb| * (X / (1 - |fb|)) ≤ X / (1 - |fb|) := by
+    have : X + |fb| * (X / (1 - |fb|)) = X / (1 - |fb|) := by field_simp; ring
+    rw [this]
+  obtain ⟨c', ys, h, hy, _, _⟩ := C13_comb_bounded (Comb.new n) (Comb.new_wf n hn) fb dp X _ hdp0 hdp1 hB0 hB
+    (by simpa [Comb.new] using hB0)
+    (by intro e he; simp [Comb.new] at he; rw [he.2]; simpa using hB0) xs hx
+  exact ⟨c', ys, h, hy⟩
+
+/-- **the all-pass line is BIBO-stable** (its feedback is the constant 0.5).  `AllPass.run` iterates the
+    model's `AllPassFilter::process`.  If every slot is within `B ≥ 2·X` and every input within `X`, then
+    for input sequences of any length the line never faults, every output is within `X + B` and the slots
+    stay within `B`.  From a fresh line: outputs within `3·X`. -/
+theorem C13_allpass_bounded (a : AllPass ℝ) (hw : a.WF) (X B : ℝ) (hX : 0 ≤ X) (hB : 2 * X ≤ B)
+    (hbuf : ∀ e ∈ a.buffer.toList, |e| ≤ B) (xs : List ℝ) (hx : ∀ x ∈ xs, |x| ≤ X) :
+    ∃ a' ys, AllPass.run a xs = .ok (a', ys) ∧ (∀ y ∈ ys, |y| ≤ X + B)
+      ∧ ∀ e ∈ a'.buffer.toList, |e| ≤ B := by
+  obtain ⟨a', hrun, _, hst⟩ := AllPass.run_fifo xs a hw
+  obtain ⟨b, d⟩ := AllPass.fifoRun_bounded X B hX hB xs a.fifo hx
+    (fun e he => hbuf e ((AllPass.mem_fifo a e).mp he))
+  refine ⟨a', _, hrun, d, ?_⟩
+  intro e he
+  exact b e (by rw [← hst]; exact (AllPass.mem_fifo a' e).mpr he)
+
+theorem C13_allpass_bounded_fresh (n : ℕ) (hn : 1 ≤ n) (X : ℝ) (hX : 0 ≤ X) (xs : List ℝ)
+    (hx : ∀ x ∈ xs, |x| ≤ X) :
+    ∃ a' ys, AllPass.run (AllPass.new n) xs = .ok (a', ys) ∧ ∀ y ∈ ys, |y| ≤ 3 * X := by
+  obtain ⟨a', ys, h, hy, _⟩ := C13_allpass_bounded (AllPass.new n) (AllPass.new_wf n hn) X (2 * X) hX (le_refl _)
+    (by intro e he; simp [AllPass.new] at he; rw [he.2]; simpa using (by linarith : (0 : ℝ) ≤ 2 * X)) xs hx
+  exact ⟨a', ys, h, fun y hy' => by have := hy y hy'; linarith⟩
 
 end K
